@@ -458,12 +458,14 @@ Proof.
 Qed.
 
 (* the answer to a request that presents a value this provider minted for session sid: the session on record for
-   sid; at a class slot the value is of that class; every endpoint but userinfo serves the session's own client *)
+   sid; at a class slot the value is of that class; the token and revocation endpoints serve the session's own client;
+   introspection answers whom the audience rule admits *)
 Theorem tanswer1_minted P r m nonce rnd sid exp s :
   r_tok r = mint (p_cfg P) m nonce rnd sid exp -> tanswer1 P r = TSession s ->
   assoc sid (p_db P) = Some s /\
   (forall h, slot_handler (ep_slot (r_ep r)) = Some h -> m = MTok h) /\
-  (r_ep r <> EpUserinfo -> s_client s = r_by r).
+  (r_ep r <> EpUserinfo -> r_ep r <> EpIntrospect -> s_client s = r_by r) /\
+  (r_ep r = EpIntrospect -> may_ask P s (r_tok r) (r_by r) = true).
 Proof.
   intros Ht. unfold tanswer1. destruct (tparse P r); [|discriminate]. unfold tprocess. rewrite Ht.
   destruct (slot_session (p_cfg P) (p_expired P) (p_db P) (ep_slot (r_ep r)) (mint (p_cfg P) m nonce rnd sid exp)) as [s0|] eqn:E;
@@ -474,15 +476,15 @@ Proof.
     destruct (slot_resolve (p_cfg P) (p_expired P) (ep_slot (r_ep r)) (mint (p_cfg P) m nonce rnd sid exp)) as [x|e] eqn:E2; [|discriminate].
     now apply (slot_class_separation _ _ _ h) in E2 as [-> _]. }
   destruct (r_ep r) eqn:Eep.
-  - intros H. inversion H; subst. repeat split; auto. congruence.
+  - intros H. inversion H; subst. repeat split; auto; congruence.
+  - destruct (may_ask P s0 (mint (p_cfg P) m nonce rnd sid exp) (r_by r)) eqn:Ec; cbn [andb]; [|discriminate].
+    destruct (ep_class_ok P r); [|discriminate]. intros H. inversion H; subst. repeat split; auto; congruence.
   - destruct (str_eqb (s_client s0) (r_by r)) eqn:Ec; cbn [andb]; [|discriminate].
-    destruct (ep_class_ok P r); [|discriminate]. intros H. inversion H; subst. apply str_eqb_eq in Ec. repeat split; auto.
+    destruct (ep_class_ok P r); [|discriminate]. intros H. inversion H; subst. apply str_eqb_eq in Ec. repeat split; auto; congruence.
   - destruct (str_eqb (s_client s0) (r_by r)) eqn:Ec; cbn [andb]; [|discriminate].
-    destruct (ep_class_ok P r); [|discriminate]. intros H. inversion H; subst. apply str_eqb_eq in Ec. repeat split; auto.
+    destruct (ep_class_ok P r); [|discriminate]. intros H. inversion H; subst. apply str_eqb_eq in Ec. repeat split; auto; congruence.
   - destruct (str_eqb (s_client s0) (r_by r)) eqn:Ec; cbn [andb]; [|discriminate].
-    destruct (ep_class_ok P r); [|discriminate]. intros H. inversion H; subst. apply str_eqb_eq in Ec. repeat split; auto.
-  - destruct (str_eqb (s_client s0) (r_by r)) eqn:Ec; cbn [andb]; [|discriminate].
-    destruct (ep_class_ok P r); [|discriminate]. intros H. inversion H; subst. apply str_eqb_eq in Ec. repeat split; auto.
+    destruct (ep_class_ok P r); [|discriminate]. intros H. inversion H; subst. apply str_eqb_eq in Ec. repeat split; auto; congruence.
 Qed.
 
 (* together: whatever else is in flight, a session handed out for request i is the one on record for the session id
@@ -492,10 +494,81 @@ Theorem tflight_bound_to_session P reqs sched i s :
   exists r, nth_error reqs i = Some r /\ tanswer1 P r = TSession s /\
     forall m nonce rnd sid exp, r_tok r = mint (p_cfg P) m nonce rnd sid exp ->
       assoc sid (p_db P) = Some s /\ (forall h, slot_handler (ep_slot (r_ep r)) = Some h -> m = MTok h) /\
-      (r_ep r <> EpUserinfo -> s_client s = r_by r).
+      (r_ep r <> EpUserinfo -> r_ep r <> EpIntrospect -> s_client s = r_by r) /\
+      (r_ep r = EpIntrospect -> may_ask P s (r_tok r) (r_by r) = true).
 Proof.
   intros H. apply tflight_model in H as (r & Hr & Ha). symmetry in Ha. exists r. split; [exact Hr|]. split; [exact Ha|].
   intros m nonce rnd sid exp Ht. exact (tanswer1_minted P r m nonce rnd sid exp s Ht Ha).
+Qed.
+
+(* ------------------------------------------------------------------ the asker of an introspection *)
+(* a provider whose audience rule is the default everywhere: enforced for everybody, no audience on record but the
+   session's own client.  There the only asker that is answered is the client the token was minted for. *)
+Definition aud_closed (P : prov) : Prop := p_enforce_default P = true /\ p_enforce P = [] /\ p_aud P = [].
+Lemma may_ask_closed P s t asker : aud_closed P -> may_ask P s t asker = true -> s_client s = asker.
+Proof.
+  intros (Hd & He & Ha). unfold may_ask, enforced, tok_aud. rewrite He, Hd, Ha. cbn [assoc negb orb aud_lookup].
+  destruct (generic_class (p_cfg P) (p_expired P) t) as [[c|]|]; cbn [existsb orb]; try discriminate.
+  destruct (str_eqb asker (s_client s)) eqn:E; [|discriminate]. apply str_eqb_eq in E. now subst.
+Qed.
+Theorem tflight_bound_to_session_closed P reqs sched i s :
+  aud_closed P ->
+  In (i, TSession s) (run_tflight (tep_model P) reqs sched) ->
+  exists r, nth_error reqs i = Some r /\ tanswer1 P r = TSession s /\
+    forall m nonce rnd sid exp, r_tok r = mint (p_cfg P) m nonce rnd sid exp ->
+      assoc sid (p_db P) = Some s /\ (forall h, slot_handler (ep_slot (r_ep r)) = Some h -> m = MTok h) /\
+      (r_ep r <> EpUserinfo -> s_client s = r_by r).
+Proof.
+  intros Hc H. apply tflight_bound_to_session in H as (r & Hr & Ha & Hm). exists r. split; [exact Hr|]. split; [exact Ha|].
+  intros m nonce rnd sid exp Ht. destruct (Hm m nonce rnd sid exp Ht) as (H1 & H2 & H3 & H4). split; [exact H1|]. split; [exact H2|].
+  intros Hu. destruct (r_ep r) eqn:Eep; try (apply H3; congruence).
+  apply (may_ask_closed P s (r_tok r)); [exact Hc|]. apply H4. reflexivity.
+Qed.
+
+(* THE ASKER ONLY GATES.  The answer to an introspection request is the asker-free view of the value, or a refusal:
+   r_by occurs in the audience test and nowhere else. *)
+Theorem introspect_gate P t asker :
+  tanswer1 P (mkTreq EpIntrospect t asker) =
+  match tintrospect_view P t with
+  | Some s => if may_ask P s t asker then TSession s else TRefused
+  | None => TRefused
+  end.
+Proof.
+  unfold tanswer1, tparse, tprocess, tintrospect_view. cbn [r_ep r_tok r_by ep_slot].
+  destruct (slot_session (p_cfg P) (p_expired P) (p_db P) SGeneric t) as [s|]; [|reflexivity].
+  unfold ep_class_ok. cbn [r_ep r_tok].
+  destruct (match generic_class (p_cfg P) (p_expired P) t with Some (MTok KAccess) | Some (MTok KRefresh) => true | _ => false end);
+    destruct (may_ask P s t asker); reflexivity.
+Qed.
+(* whoever asks and is answered gets the same session ... *)
+Theorem introspect_asker_independent P t a1 a2 s1 s2 :
+  tanswer1 P (mkTreq EpIntrospect t a1) = TSession s1 -> tanswer1 P (mkTreq EpIntrospect t a2) = TSession s2 -> s1 = s2.
+Proof.
+  rewrite !introspect_gate. destruct (tintrospect_view P t) as [s|]; [|discriminate].
+  destruct (may_ask P s t a1); [|discriminate]. destruct (may_ask P s t a2); [|discriminate]. congruence.
+Qed.
+(* ... which is the one the owner of the token is told, and the one on record for the session id it was minted for *)
+Theorem introspect_equals_owner P m nonce rnd sid exp asker s :
+  tanswer1 P (mkTreq EpIntrospect (mint (p_cfg P) m nonce rnd sid exp) asker) = TSession s ->
+  assoc sid (p_db P) = Some s /\
+  forall owner, may_ask P s (mint (p_cfg P) m nonce rnd sid exp) owner = true ->
+    tanswer1 P (mkTreq EpIntrospect (mint (p_cfg P) m nonce rnd sid exp) owner) = TSession s.
+Proof.
+  intros H. split.
+  - exact (proj1 (tanswer1_minted P (mkTreq EpIntrospect (mint (p_cfg P) m nonce rnd sid exp) asker) m nonce rnd sid exp s eq_refl H)).
+  - intros owner Ho. rewrite introspect_gate in *. destruct (tintrospect_view P _) as [s0|]; [|discriminate].
+    destruct (may_ask P s0 _ asker); [|discriminate]. inversion H; subst. now rewrite Ho.
+Qed.
+(* the session's own client is in the default audience: with nothing on record for the token, its owner is answered *)
+Theorem introspect_owner_default P t s :
+  tintrospect_view P t = Some s -> (forall c, aud_lookup (s_id s) c (p_aud P) = None) ->
+  tanswer1 P (mkTreq EpIntrospect t (s_client s)) = TSession s.
+Proof.
+  intros Hv Ha. rewrite introspect_gate, Hv. unfold may_ask, tok_aud.
+  unfold tintrospect_view in Hv. destruct (slot_session _ _ _ SGeneric t) as [s0|]; [|discriminate].
+  unfold ep_class_ok in Hv. cbn [r_ep r_tok] in Hv.
+  destruct (generic_class (p_cfg P) (p_expired P) t) as [[c|]|]; try discriminate.
+  rewrite Ha. cbn [existsb]. rewrite str_eqb_refl. now rewrite Bool.orb_true_r.
 Qed.
 
 (* an access token in flight at userinfo is answered with its own session *)
@@ -516,7 +589,8 @@ Qed.
 Definition ex_cfg : hconf := mkHconf (HOpaque 0) (HOpaque 0) (HOpaque 0) 50.
 Definition ex_prov : prov :=
   mkProv ex_cfg (fun _ => false)
-    [(PS "sid-0", mkSess 0 (PS "diana") (PS "client_1")); (PS "sid-1", mkSess 1 (PS "babs") (PS "client_2"))].
+    [(PS "sid-0", mkSess 0 (PS "diana") (PS "client_1")); (PS "sid-1", mkSess 1 (PS "babs") (PS "client_2"))]
+    true [] [].
 Definition ex_req (sid : pystr) : treq := mkTreq EpUserinfo (mint ex_cfg (MTok KAccess) (PS "n") (PS "r") sid (PS "99")) (PS "").
 Example remembering_endpoint_refuted :
   let reqs := [ex_req (PS "sid-0"); ex_req (PS "sid-1")] in
@@ -530,4 +604,29 @@ Example remembering_endpoint_refuted :
     = [(0%nat, TSession s1); (1%nat, TSession s1)] /\
   run_tflight (tep_model ex_prov) reqs [TvParse 0; TvParse 1; TvProcess 0; TvRespond 0; TvProcess 1; TvRespond 1]
     = [(0%nat, TSession s0); (1%nat, TSession s1)].
+Proof. vm_compute. repeat split; reflexivity. Qed.
+
+(* NON-VACUITY / the refuted variant of the asker dimension: a resource server registered with the audience
+   restriction off, and one listed in the audience of the token of session 1, ask about the tokens of two sessions.
+   The model answers them with the sessions the tokens were minted for - the very answers their owners get; an
+   application that is neither is refused; an introspection that names the asker as the token's client answers the
+   owner correctly and everybody else with a session that does not exist. *)
+Definition ex_prov_rs : prov :=
+  mkProv ex_cfg (fun _ => false)
+    [(PS "sid-0", mkSess 0 (PS "diana") (PS "client_1")); (PS "sid-1", mkSess 1 (PS "babs") (PS "client_2"))]
+    true [(PS "rs_open", false)] [(1%nat, 1%nat, [PS "client_2"; PS "rs_aud"])].
+Definition ex_ireq (sid asker : pystr) : treq := mkTreq EpIntrospect (mint ex_cfg (MTok KAccess) (PS "n") (PS "r") sid (PS "99")) asker.
+Definition tanswer1_asker_named (P : prov) (r : treq) : tanswer := if tparse P r then tprocess_asker_named P r else TRefused.
+Example asker_named_refuted :
+  let s0 := mkSess 0 (PS "diana") (PS "client_1") in
+  let s1 := mkSess 1 (PS "babs") (PS "client_2") in
+  tanswer1 ex_prov_rs (ex_ireq (PS "sid-0") (PS "client_1")) = TSession s0 /\
+  tanswer1 ex_prov_rs (ex_ireq (PS "sid-0") (PS "rs_open")) = TSession s0 /\
+  tanswer1 ex_prov_rs (ex_ireq (PS "sid-1") (PS "rs_open")) = TSession s1 /\
+  tanswer1 ex_prov_rs (ex_ireq (PS "sid-1") (PS "rs_aud")) = TSession s1 /\
+  tanswer1 ex_prov_rs (ex_ireq (PS "sid-0") (PS "rs_aud")) = TRefused /\
+  tanswer1 ex_prov_rs (ex_ireq (PS "sid-0") (PS "client_2")) = TRefused /\
+  tanswer1_asker_named ex_prov_rs (ex_ireq (PS "sid-0") (PS "client_1")) = TSession s0 /\
+  tanswer1_asker_named ex_prov_rs (ex_ireq (PS "sid-0") (PS "rs_open")) = TSession (mkSess 0 (PS "diana") (PS "rs_open")) /\
+  tanswer1_asker_named ex_prov_rs (ex_ireq (PS "sid-1") (PS "rs_aud")) = TSession (mkSess 1 (PS "babs") (PS "rs_aud")).
 Proof. vm_compute. repeat split; reflexivity. Qed.
